@@ -104,6 +104,17 @@ def has_nested_set(obj, top=True) -> bool:
     return any(has_nested_set(c, False) for _, c in kids)
 
 
+def body_argument(session, call_hash):
+    """The Argument row holding the body AST of a harness task call: keyword `ast` for calls made
+    through a keyword-bound partial (vf.kelem), positional argument 0 otherwise."""
+    from redun.backends.db import Argument
+
+    kw = session.query(Argument).filter(Argument.call_hash == call_hash, Argument.arg_key == "ast").first()
+    if kw is not None:
+        return kw
+    return session.query(Argument).filter(Argument.call_hash == call_hash, Argument.arg_position == 0).first()
+
+
 def holds_raised_throw_argument(obj, depth=0) -> bool:
     """True if the value contains a redun.throw(error) expression whose error carries the
     redun_traceback attribute the scheduler attaches to errors it has seen raised."""
@@ -249,7 +260,7 @@ def audit(case, backend, runs) -> dict:
             if t.entity_type.name != "Job" or t.entity_id not in job_rows:
                 raise Violation("job-tag-entity", f"job tag jk={t.value} attached to {t.entity_type} {t.entity_id[:8]}", case)
             row = job_rows[t.entity_id]
-            arg0 = session.query(Argument).filter(Argument.call_hash == row.call_hash, Argument.arg_position == 0).first()
+            arg0 = body_argument(session, row.call_hash)
             ast, _ = backend.get_value(arg0.value_hash) if arg0 else (None, False)
             _, jts = direct_tags(ast) if ast else ([], [])
             if ("jk", t.value) not in jts:
@@ -282,7 +293,7 @@ def audit(case, backend, runs) -> dict:
                 row = job_rows.get(sj.id)
                 if row is None or row.cached or sj._status != "DONE":
                     continue
-                arg0 = session.query(Argument).filter(Argument.call_hash == row.call_hash, Argument.arg_position == 0).first()
+                arg0 = body_argument(session, row.call_hash)
                 if not arg0:
                     continue
                 ast, _ = backend.get_value(arg0.value_hash)
